@@ -133,7 +133,7 @@ def lev : List Char → List Char → Nat
     min (lev s (b :: t) + 1) (min (lev (a :: s) t + 1) (lev s t + if a = b then 0 else 1))
 termination_by s t => s.length + t.length
 
-/-- `luhn_check(s)` for a non-empty string of ASCII digits; anything else raises. -/
+/-- `luhn_check(s)` for a non-empty string of ASCII digits (`none` = anything else: outside the claim). -/
 def isDigitC (c : Char) : Bool := decide (48 ≤ c.toNat) && decide (c.toNat ≤ 57)
 def luhnSum : List Nat → Bool → Nat          -- digits from the RIGHT; flag = double this one
   | [], _ => 0
